@@ -572,7 +572,10 @@ func (fc *FnCtx) copyOp(c *ssa.CallCommon, args []Val, st *State) Val {
 	src := fc.term(args[1])
 	st0 := types.Unalias(c.Args[0].Type()).Underlying().(*types.Slice)
 	if structElems(st0.Elem()) {
-		fc.unsup("copy() of a slice of struct values")
+		if src.Sort != "Slice" {
+			fc.unsup("copy() of a string into a slice of struct values")
+		}
+		return fc.copyStructs(st0.Elem(), dst, src, st)
 	}
 	key, es := fc.elemKey(st0.Elem())
 	m := fc.heapGet(st, key, ArraySort("Ref", ArraySort("Int", es)))
